@@ -14,6 +14,9 @@ EXPLANATION = (
     "H5 RotoConstant allocates and deallocates with the same (size, align) and drops the value before freeing. "
     "'Exactly once over all drop histories' beyond what Rust's ownership guarantees is not decided."
 )
+EXPLANATION += (  # round-3 supplement
+    " H7 a closure or struct that captures a handle's code pointer also captures its module reference. H8 codegen pushes the keep-alive Arc on every path to the recording of a closure pointer."
+)
 ASSUMPTIONS = [
     "Rust ownership/Arc semantics: a value is dropped exactly once when its last owner goes away",
     "fields are dropped in declaration order",
